@@ -371,7 +371,7 @@ pub fn run(cfg: &RunCfg) -> Report {
         &mut rep,
         cfg,
         "history",
-        cfg.cases(8_000, 160_000),
+        cfg.cases(40_000, 800_000),
         || (proptest::collection::vec(req_strategy(), 1..25), any::<u16>(), prop_oneof![4 => Just(1u8), 2 => 2u8..4, 1 => 6u8..13]).prop_map(|(reqs, probe, repeat)| Case { reqs, probe, repeat }),
         |c| run_case(cfg, c),
     );
